@@ -111,8 +111,8 @@ impl<'a> ToRange for Span<'a> {
     fn to_sync_point(&self) -> Range<usize> {
         let s: &str = self.fragment();
         let sync = s
-            .chars()
-            .find_position(|ch| matches!(ch, '|' | ')' | ']' | '}'));
+            .char_indices()
+            .find(|(_, ch)| matches!(ch, '|' | ')' | ']' | '}'));
 
         let end = sync.map(|pair| pair.0).unwrap_or(s.len());
 
@@ -125,8 +125,8 @@ impl<'a> ToRange for Span<'a> {
     fn to_whitespace(&self) -> Range<usize> {
         let s: &str = self.fragment();
         let sync = s
-            .chars()
-            .find_position(|ch| matches!(ch, ' ' | '\t' | '\n'));
+            .char_indices()
+            .find(|(_, ch)| matches!(ch, ' ' | '\t' | '\n'));
 
         let end = sync.map(|pair| pair.0).unwrap_or(s.len());
 
@@ -328,7 +328,8 @@ where
                         return Ok((remaining, o2));
                     }
 
-                    remaining = remaining.slice(1..);
+                    let step = remaining.fragment().chars().next().map_or(1, char::len_utf8);
+                    remaining = remaining.slice(step..);
                     let end = remaining.location_offset();
                     let res = third.parse(remaining);
 
